@@ -584,12 +584,29 @@ def mpc_tanh(z, prec, rnd=round_fast):
     return a, b
 
 # TODO: avoid loss of accuracy
+def _atan_small(z, wp):
+    # atan(z) and atanh(z) are computed as a difference of two logarithms
+    # that nearly cancel for small |z|: returns the working precision
+    # that compensates for this, and whether z*(1 + O(z^2)) is z itself
+    # to that precision
+    a, b = z
+    if (a[1] or b[1]) and (a[1] or a == fzero) and (b[1] or b == fzero):
+        mag = max([t[2]+t[3] for t in z if t[1]])
+        if 2*mag < -wp:
+            return wp, True
+        if mag < 0:
+            wp -= 2*mag
+    return wp, False
+
 def mpc_atan(z, prec, rnd=round_fast):
     a, b = z
     # atan(z) = (I/2)*(log(1-I*z) - log(1+I*z))
     # x = 1-I*z = 1 + b - I*a
     # y = 1+I*z = 1 - b + I*a
     wp = prec + 15
+    wp, small = _atan_small(z, wp)
+    if small:
+        return mpc_pos(z, prec, rnd)
     x = mpf_add(fone, b, wp), mpf_neg(a)
     y = mpf_sub(fone, b, wp), a
     l1 = mpc_log(x, wp)
@@ -770,6 +787,9 @@ def mpc_acosh(z, prec, rnd=round_fast):
 def mpc_atanh(z, prec, rnd=round_fast):
     # atanh(z) = (log(1+z)-log(1-z))/2
     wp = prec + 15
+    wp, small = _atan_small(z, wp)
+    if small:
+        return mpc_pos(z, prec, rnd)
     a = mpc_add(z, mpc_one, wp)
     b = mpc_sub(mpc_one, z, wp)
     a = mpc_log(a, wp)
